@@ -736,7 +736,7 @@ def _basic_add(a, b):
 
 def _basic_sub(a, b):
     sumbits, carry_out = _add_helper(a, ~b, 1)
-    return concat(carry_out, sumbits)
+    return concat(~carry_out, sumbits)  # the top bit of a - b is the borrow, not the carry
 
 
 def _basic_eq(a, b):
